@@ -36,9 +36,9 @@ PROPS = {
     "C10": dict(
         level="exploration",
         technique="bounded-exhaustive enumeration of all byte strings / pairs over a 4-letter alphabet through the real constructors (no sampling)",
-        steps=[_s("h-str", "c10")],
+        steps=[_s("h-str", "c10"), _s("h-fs", "readdir", name="dirent-names")],
         assumptions=["alphabet {NUL,'/','a',0xFF} is representative for code that only distinguishes NUL, '/', and other bytes",
-                     "directory-entry names are covered by the C14 harness (same oracle)"],
+                     "directory-entry names: the readdir step of the C14 harness applies the same raw-slice oracle to DirEntry::file_unix_name (keys C10:DirEntry::...)"],
     ),
     "C11": dict(
         level="exploration",
